@@ -88,6 +88,9 @@ func (c13) Gen(r *sim.Rand, c *sim.Case, tier string) {
 			}
 		}
 		ops = append(defs, rest...)
+		if r.Chance(0.25) { // a rejected Save is not a serialisation: styles defined after it must still be written
+			ops = append([]sim.Op{{K: "savefail", I: []int{r.Intn(2)}}}, ops...)
+		}
 	}
 	if r.Chance(0.3) { // interfering document: the registries are shared (C07's finding), id closure must hold all the same
 		g2 := world.NewGen(r.Fork())
